@@ -781,7 +781,7 @@ where
                                 .reason_code(DisconnectReasonCode::KeepAliveTimeout)
                                 .build()
                             {
-                                events.extend(self.process_send_v5_0_disconnect(disconnect));
+                                events.extend(self.send_v5_0_disconnect_or_close(disconnect));
                             }
                         }
                     }
@@ -806,7 +806,7 @@ where
                                 .reason_code(DisconnectReasonCode::KeepAliveTimeout)
                                 .build()
                             {
-                                events.extend(self.process_send_v5_0_disconnect(disconnect));
+                                events.extend(self.send_v5_0_disconnect_or_close(disconnect));
                             }
                         }
                     }
@@ -2540,7 +2540,7 @@ where
                 .build()
                 .unwrap();
             // Send disconnect packet directly without generic constraints
-            events.extend(self.process_send_v5_0_disconnect(disconnect_packet));
+            events.extend(self.send_v5_0_disconnect_or_close(disconnect_packet));
             events.push(GenericEvent::NotifyError(MqttError::PacketTooLarge));
             return events;
         }
@@ -3825,8 +3825,27 @@ where
             .reason_code(e.into())
             .build()
             .unwrap();
-        events.extend(self.process_send_v5_0_disconnect(disconnect));
+        events.extend(self.send_v5_0_disconnect_or_close(disconnect));
         events.push(GenericEvent::NotifyError(e));
+    }
+
+    /// Send a DISCONNECT generated by the library itself. If the peer's Maximum Packet Size
+    /// does not even admit the DISCONNECT, the connection is closed without it instead of
+    /// being left open after a protocol error or keep-alive timeout.
+    fn send_v5_0_disconnect_or_close(
+        &mut self,
+        disconnect: v5_0::Disconnect,
+    ) -> Vec<GenericEvent<PacketIdType>> {
+        if self.status == ConnectionStatus::Connected
+            && !self.validate_maximum_packet_size_send(disconnect.size())
+        {
+            let mut events = Vec::new();
+            self.status = ConnectionStatus::Disconnected;
+            self.cancel_timers(&mut events);
+            events.push(GenericEvent::RequestClose);
+            return events;
+        }
+        self.process_send_v5_0_disconnect(disconnect)
     }
 
     fn refresh_pingreq_recv(&mut self) -> Vec<GenericEvent<PacketIdType>> {
